@@ -755,4 +755,342 @@ theorem same_name_witness :
         "[{\"binding\":\"kubernetes\",\"objects\":[{\"object\":{\"n\":2}}],\"type\":\"Synchronization\"}]" := by
   decide
 
+/-! ## Fifth wave (a): conversion links -/
+
+/-- What is true of every pair of the link map at any moment of `EnableConversionBindings`. -/
+def LinkOK (bs : List ConvB) (kv : (String × String × String) × Link) : Prop :=
+  ∃ b ∈ bs, ∃ r ∈ b.rules, kv.1 = (b.crd, r.1, r.2) ∧ kv.2 = linkOf b r
+
+theorem enableRules_ok (bs : List ConvB) (b : ConvB) (hb : b ∈ bs) (m : Links) (hm : ∀ kv ∈ m, LinkOK bs kv) :
+    ∀ kv ∈ enableRules b m, LinkOK bs kv := by
+  unfold enableRules
+  have : ∀ (rs : List (String × String)) (m : Links), (∀ r ∈ rs, r ∈ b.rules) → (∀ kv ∈ m, LinkOK bs kv) →
+      ∀ kv ∈ rs.foldl (fun m r => ((b.crd, r.1, r.2), linkOf b r) :: m) m, LinkOK bs kv := by
+    intro rs
+    induction rs with
+    | nil => intro m _ hm; simpa using hm
+    | cons r rest ih =>
+      intro m hrs hm
+      simp only [List.foldl_cons]
+      apply ih
+      · intro r' hr'; exact hrs r' (List.mem_cons_of_mem _ hr')
+      · intro kv hkv
+        rcases List.mem_cons.mp hkv with rfl | hkv
+        · exact ⟨b, hb, r, hrs r (List.mem_cons_self ..), rfl, rfl⟩
+        · exact hm kv hkv
+  exact this b.rules m (fun _ h => h) hm
+
+theorem enableConversion_ok (bs : List ConvB) : ∀ kv ∈ enableConversion bs, LinkOK bs kv := by
+  unfold enableConversion
+  have : ∀ (l : List ConvB) (m : Links), (∀ b ∈ l, b ∈ bs) → (∀ kv ∈ m, LinkOK bs kv) →
+      ∀ kv ∈ l.foldl (fun m b => enableRules b m) m, LinkOK bs kv := by
+    intro l
+    induction l with
+    | nil => intro m _ hm; simpa using hm
+    | cons b rest ih =>
+      intro m hl hm
+      simp only [List.foldl_cons]
+      exact ih _ (fun b' hb' => hl b' (List.mem_cons_of_mem _ hb'))
+        (enableRules_ok bs b (hl b (List.mem_cons_self ..)) m hm)
+  exact this bs [] (fun _ h => h) (by simp)
+
+/-- **Soundness of the links.** Whatever `HandleEvent` finds under (crd, rule) was stored for a binding
+of the hook that lists this very rule, and is the link of that binding *for that rule*. -/
+theorem enable_links_sound (bs : List ConvB) (crd : String) (r : String × String) (l : Link)
+    (hf : (enableConversion bs).find crd r = some l) :
+    ∃ b ∈ bs, r ∈ b.rules ∧ b.crd = crd ∧ l = linkOf b r := by
+  unfold Links.find at hf
+  cases hfind : (enableConversion bs).find? (fun kv => kv.1 = (crd, r.1, r.2)) with
+  | none => simp [hfind] at hf
+  | some kv =>
+    simp [hfind] at hf
+    have hmem := List.mem_of_find?_eq_some hfind
+    have hkey := List.find?_some hfind
+    obtain ⟨b, hb, r', hr', hk, hl⟩ := enableConversion_ok bs kv hmem
+    simp only [decide_eq_true_eq] at hkey
+    rw [hk] at hkey
+    simp only [Prod.mk.injEq] at hkey
+    have h1 : b.crd = crd := hkey.1
+    have h2 : r' = r := Prod.ext hkey.2.1 hkey.2.2
+    subst h2
+    exact ⟨b, hb, hr', h1, by rw [← hf, hl]⟩
+
+/-- **C09 conversion versions.** For every list of conversion bindings (any number of `conversions`
+each, rules may even repeat between bindings) and every request: the link found for a rule carries
+the fromVersion / toVersion of that rule. -/
+theorem conversion_link_versions (bs : List ConvB) (crd : String) (r : String × String) (l : Link)
+    (hf : (enableConversion bs).find crd r = some l) : l.fromV = r.1 ∧ l.toV = r.2 := by
+  obtain ⟨b, _, _, _, hl⟩ := enable_links_sound bs crd r l hf
+  subst hl; exact ⟨rfl, rfl⟩
+
+theorem enableRules_mono (b : ConvB) (m : Links) (k : String × String × String)
+    (hk : k ∈ m.map Prod.fst) : k ∈ (enableRules b m).map Prod.fst := by
+  unfold enableRules
+  have : ∀ (rs : List (String × String)) (m : Links), k ∈ m.map Prod.fst →
+      k ∈ (rs.foldl (fun m r => ((b.crd, r.1, r.2), linkOf b r) :: m) m).map Prod.fst := by
+    intro rs
+    induction rs with
+    | nil => intro m hm; simpa using hm
+    | cons r rest ih => intro m hm; simp only [List.foldl_cons]; apply ih; simp [hm]
+  exact this b.rules m hk
+
+theorem enableRules_has (b : ConvB) (m : Links) (r : String × String) (hr : r ∈ b.rules) :
+    (b.crd, r.1, r.2) ∈ (enableRules b m).map Prod.fst := by
+  unfold enableRules
+  have : ∀ (rs : List (String × String)) (m : Links), r ∈ rs →
+      (b.crd, r.1, r.2) ∈ (rs.foldl (fun m r => ((b.crd, r.1, r.2), linkOf b r) :: m) m).map Prod.fst := by
+    intro rs
+    induction rs with
+    | nil => intro m h; simp at h
+    | cons r' rest ih =>
+      intro m h
+      simp only [List.foldl_cons]
+      rcases List.mem_cons.mp h with rfl | h
+      · have := enableRules_mono { b with rules := rest } (((b.crd, r.1, r.2), linkOf b r) :: m) (b.crd, r.1, r.2) (by simp)
+        simp only [enableRules, linkOf] at this
+        exact this
+      · exact ih _ h
+  exact this b.rules m hr
+
+/-- **Completeness of the links.** Every rule of every binding can be handled. -/
+theorem enable_links_complete (bs : List ConvB) (b : ConvB) (hb : b ∈ bs) (r : String × String) (hr : r ∈ b.rules) :
+    ((enableConversion bs).find b.crd r).isSome = true := by
+  have hkey : (b.crd, r.1, r.2) ∈ (enableConversion bs).map Prod.fst := by
+    unfold enableConversion
+    have : ∀ (l : List ConvB) (m : Links), (b ∈ l ∨ (b.crd, r.1, r.2) ∈ m.map Prod.fst) →
+        (b.crd, r.1, r.2) ∈ (l.foldl (fun m b => enableRules b m) m).map Prod.fst := by
+      intro l
+      induction l with
+      | nil => intro m h; rcases h with h | h; · simp at h
+               · simpa using h
+      | cons b' rest ih =>
+        intro m h
+        simp only [List.foldl_cons]
+        apply ih
+        rcases h with h | h
+        · rcases List.mem_cons.mp h with rfl | h
+          · exact Or.inr (enableRules_has b m r hr)
+          · exact Or.inl h
+        · exact Or.inr (enableRules_mono b' m _ h)
+    exact this bs [] (Or.inl hb)
+  unfold Links.find
+  obtain ⟨kv, hkv, hk⟩ := List.mem_map.mp hkey
+  cases hfind : (enableConversion bs).find? (fun kv => kv.1 = (b.crd, r.1, r.2)) with
+  | some _ => simp
+  | none =>
+    have := List.find?_eq_none.mp hfind kv hkv
+    simp [hk] at this
+
+/-- **C09 Conversion contexts carry their documented fields — for every rule.** For every binding of the
+hook and every one of its `conversions`, a request for that rule yields a context, and the context is
+the one of a Conversion binding whose fromVersion / toVersion are those of the requested rule, with
+the request's review (so `mapV1_eq_spec_partial` applies to it: the item shows `fromVersion`,
+`toVersion`, `review`, `type: Conversion`). -/
+theorem conversion_context_every_rule (bs : List ConvB) (b : ConvB) (hb : b ∈ bs) (r : String × String)
+    (hr : r ∈ b.rules) (uid : String) :
+    ∃ c, handleConversion (enableConversion bs) b.crd r uid = some c ∧
+      c = mkCtx (.other { kind := .conversion, name := c.binding, group := c.group, inc := c.includeSnapshots,
+                          fromV := r.1, toV := r.2 } uid) := by
+  have hs := enable_links_complete bs b hb r hr
+  cases hf : (enableConversion bs).find b.crd r with
+  | none => simp [hf] at hs
+  | some l =>
+    obtain ⟨h1, h2⟩ := conversion_link_versions bs b.crd r l hf
+    refine ⟨{ btype := .conversion, binding := l.binding, review := uid, fromVersion := l.fromV, toVersion := l.toV,
+              includeSnapshots := l.inc, group := l.group }, by simp [handleConversion, hf], ?_⟩
+    simp [mkCtx, h1, h2]
+
+/-- When no other binding of the CRD lists the rule, the context is the one of *this* binding. -/
+theorem conversion_context_owner (bs : List ConvB) (b : ConvB) (hb : b ∈ bs) (r : String × String)
+    (hr : r ∈ b.rules) (uid : String)
+    (huniq : ∀ b' ∈ bs, r ∈ b'.rules → b'.crd = b.crd → b' = b) :
+    handleConversion (enableConversion bs) b.crd r uid =
+      some (mkCtx (.other { kind := .conversion, name := b.name, group := b.group, inc := b.inc,
+                            fromV := r.1, toV := r.2 } uid)) := by
+  have hs := enable_links_complete bs b hb r hr
+  cases hf : (enableConversion bs).find b.crd r with
+  | none => simp [hf] at hs
+  | some l =>
+    obtain ⟨b', hb', hr', hc, hl⟩ := enable_links_sound bs b.crd r l hf
+    have := huniq b' hb' hr' hc
+    subst this
+    simp [handleConversion, hf, hl, linkOf, mkCtx]
+
+def exConv : ConvB := { name := "conv1", crd := "crd", inc := ["k1"], rules := [("v1alpha1", "v1beta1"), ("v1beta1", "v1")] }
+
+example : (handleConversion (enableConversion [exConv]) "crd" ("v1alpha1", "v1beta1") "u").map
+      (fun c => (c.binding, c.fromVersion, c.toVersion, c.review)) = some ("conv1", "v1alpha1", "v1beta1", "u")
+    ∧ (handleConversion (enableConversion [exConv]) "crd" ("v1beta1", "v1") "u").map
+      (fun c => (c.fromVersion, c.toVersion)) = some ("v1beta1", "v1") := by decide
+
+/-- Witness for the seeded change C09-w5m1 (one link per binding shared by all its rules): the context
+for the first rule of a two-rule binding carries the versions of the last rule. -/
+theorem conversion_shared_link_witness :
+    (handleConversion (enableConversionShared [exConv]) "crd" ("v1alpha1", "v1beta1") "u").map
+      (fun c => (c.fromVersion, c.toVersion)) = some ("v1beta1", "v1") := by decide
+
+/-! ## Fifth wave (b): the keys of `snapshots` -/
+
+theorem mergeArrays_fold_mem (a1 a2 acc : List String) (x : String) :
+    x ∈ a2.foldl (fun acc a => if a ∈ a1 ∨ a ∈ acc then acc else acc ++ [a]) acc ↔
+      x ∈ acc ∨ (x ∈ a2 ∧ x ∉ a1) := by
+  induction a2 generalizing acc with
+  | nil => simp
+  | cons a rest ih =>
+    simp only [List.foldl_cons]
+    rw [ih]
+    by_cases h : a ∈ a1 ∨ a ∈ acc
+    · simp only [h, if_true, List.mem_cons]
+      constructor
+      · rintro (h1 | ⟨h1, h2⟩)
+        · exact Or.inl h1
+        · exact Or.inr ⟨Or.inr h1, h2⟩
+      · rintro (h1 | ⟨h1 | h1, h2⟩)
+        · exact Or.inl h1
+        · subst h1
+          rcases h with h | h
+          · exact absurd h h2
+          · exact Or.inl h
+        · exact Or.inr ⟨h1, h2⟩
+    · simp only [h, if_false, List.mem_append, List.mem_cons, List.not_mem_nil, or_false]
+      have hn1 : a ∉ a1 := fun e => h (Or.inl e)
+      constructor
+      · rintro ((h1 | h1) | ⟨h1, h2⟩)
+        · exact Or.inl h1
+        · subst h1; exact Or.inr ⟨Or.inl rfl, hn1⟩
+        · exact Or.inr ⟨Or.inr h1, h2⟩
+      · rintro (h1 | ⟨h1 | h1, h2⟩)
+        · exact Or.inl (Or.inl h1)
+        · exact Or.inl (Or.inr h1)
+        · exact Or.inr ⟨h1, h2⟩
+
+/-- `MergeArrays(a1, a2)` holds exactly the members of its two arguments. -/
+theorem mem_mergeArrays (a1 a2 : List String) (x : String) : x ∈ mergeArrays a1 a2 ↔ x ∈ a1 ∨ x ∈ a2 := by
+  unfold mergeArrays
+  rw [List.mem_append, mergeArrays_fold_mem]
+  by_cases h : x ∈ a1 <;> simp [h]
+
+theorem groupKbs_eq (raw : List (String × String)) (g : String) : Spec.groupKbs raw g = groupSnapshots raw g := by
+  unfold Spec.groupKbs groupSnapshots
+  by_cases hg : g = "" <;> simp [hg]
+
+theorem lastAssign_not_mem (k : String) (init : Option J) (l : List (String × J)) (h : k ∉ l.map Prod.fst) :
+    lastAssign k init l = init := by
+  unfold lastAssign
+  induction l generalizing init with
+  | nil => rfl
+  | cons kv rest ih =>
+    simp only [List.map_cons, List.mem_cons, not_or] at h
+    simp only [List.foldl_cons, h.1, if_false]
+    exact ih init h.2
+
+theorem lastAssign_append (k : String) (init : Option J) (l1 l2 : List (String × J)) :
+    lastAssign k init (l1 ++ l2) = lastAssign k (lastAssign k init l1) l2 := by
+  unfold lastAssign; rw [List.foldl_append]
+
+/-- **C09 the keys of `snapshots`.** For every hook that has kubernetes bindings, every cluster content
+and every context the controllers produce whose binding includes snapshots: the rendered item has a
+`snapshots` object and its keys are exactly the names of the binding's effective includeSnapshotsFrom
+(no hypothesis on names: bindings may share them). -/
+theorem rendered_snapshots_keys (h : Hook) (cl : Cluster) (o : Origin) (hk : h.kbs ≠ []) (hi : incOf o ≠ []) :
+    ∃ j, (J.mkObj (mapV1 (updateSnapshots h cl (mkCtx o)))).get? "snapshots" = some j ∧
+      ∀ k, k ∈ j.keys ↔ k ∈ incOf o := by
+  obtain ⟨h1, _, _, _, _, _, _, _, _, hinc', hall'⟩ := updateSnapshots_fields h cl (mkCtx o)
+  obtain ⟨hinc, hall⟩ := mkCtx_include o
+  have hkb : h.kbs.isEmpty = false := by
+    cases hh : h.kbs with
+    | nil => exact absurd hh hk
+    | cons _ _ => rfl
+  have hs : (mkCtx o).btype ≠ .onStartup := fun e => hi (mkCtx_onStartup_iff o e)
+  have hsn := updateSnapshots_snapshots h cl (mkCtx o) hkb
+  have hlen : ¬ (incOf o).length = 0 := by
+    cases hio : incOf o with
+    | nil => exact absurd hio hi
+    | cons _ _ => simp
+  rw [hinc] at hsn
+  simp only [hlen, if_false] at hsn
+  refine ⟨snapshotsJ ((incOf o).map (fun name => (name, (snapshotsFor h cl name).getD []))), ?_, ?_⟩
+  · rw [get_mkObj]
+    unfold mapV1
+    rw [h1]
+    simp only [hs, if_false]
+    rw [lastAssign_append, lastAssign_not_mem _ _ _ (typePart_no_snapshots _), lastAssign_append]
+    unfold snapPart
+    rw [hinc', hall', hinc, hall, hsn]
+    have hpos : (incOf o).length > 0 := Nat.pos_of_ne_zero hlen
+    simp [lastAssign, hpos]
+  · intro k
+    unfold snapshotsJ
+    rw [mem_keys_mkObj]
+    simp [List.map_map, Function.comp_def]
+
+/-- An item whose binding includes no snapshots has no `snapshots` member. -/
+theorem rendered_no_snapshots (h : Hook) (cl : Cluster) (o : Origin) (hi : incOf o = []) :
+    (J.mkObj (mapV1 (updateSnapshots h cl (mkCtx o)))).get? "snapshots" = none := by
+  have this : "snapshots" ∉ (J.mkObj (mapV1 (updateSnapshots h cl (mkCtx o)))).keys :=
+    fun hm => ((rendered_snapshots_iff_included h cl o).mp hm) hi
+  rw [mem_keys_mkObj] at this
+  rw [get_mkObj, lastAssign_not_mem _ _ _ this]
+
+/-- **The clause the driver evaluates on every item (`oracle snapkeys`) holds of the model's item**, for
+every hook with kubernetes bindings, every binding configuration as written (`own` = its
+includeSnapshotsFrom, `g` = its group, `raw` = the kubernetes bindings with their groups) once the loader
+has merged the group (`incOf o = MergeArrays(own, groupSnapshots[g])`): the keys of `snapshots` are the
+binding's own names plus the kubernetes bindings of its group — nobody else's, none missing — and the
+member is absent exactly when both are empty. -/
+theorem snap_keys_clause_v1 (h : Hook) (cl : Cluster) (o : Origin) (hk : h.kbs ≠ [])
+    (raw : List (String × String)) (own : List String) (g : String)
+    (heff : incOf o = mergeArrays own (groupSnapshots raw g)) :
+    Spec.snapKeysClause own (Spec.groupKbs raw g)
+      (((J.mkObj (mapV1 (updateSnapshots h cl (mkCtx o)))).get? "snapshots").map J.keys) = true := by
+  rw [groupKbs_eq]
+  have hmem : ∀ x, x ∈ incOf o ↔ x ∈ own ++ groupSnapshots raw g := by
+    intro x; rw [heff, mem_mergeArrays, List.mem_append]
+  by_cases hi : incOf o = []
+  · rw [rendered_no_snapshots h cl o hi]
+    have : own ++ groupSnapshots raw g = [] := by
+      cases hw : own ++ groupSnapshots raw g with
+      | nil => rfl
+      | cons x rest =>
+        have := (hmem x).mpr (by rw [hw]; exact List.mem_cons_self ..)
+        rw [hi] at this; simp at this
+    simp [Spec.snapKeysClause, this]
+  · obtain ⟨j, hj, hkeys⟩ := rendered_snapshots_keys h cl o hk hi
+    rw [hj]
+    have hne : (own ++ groupSnapshots raw g).isEmpty = false := by
+      cases hw : own ++ groupSnapshots raw g with
+      | nil =>
+        exfalso; apply hi
+        cases hio : incOf o with
+        | nil => rfl
+        | cons x rest =>
+          have := (hmem x).mp (by rw [hio]; exact List.mem_cons_self ..)
+          rw [hw] at this; simp at this
+      | cons _ _ => rfl
+    simp only [Spec.snapKeysClause, Option.map_some, hne, Bool.not_false, Bool.true_and, Bool.and_eq_true,
+      List.all_eq_true, List.contains_iff_mem]
+    exact ⟨fun k hk' => (hmem k).mp ((hkeys k).mp hk'), fun k hk' => (hkeys k).mpr ((hmem k).mpr hk')⟩
+
+/-! Non-vacuity: a group of three kubernetes bindings, two members with different extra lists. -/
+def g3Raw : List (String × String) := [("x1", ""), ("x2", ""), ("k1", "g"), ("k2", "g"), ("k3", "g")]
+def g3K (n : String) (g : String) (own : List String) : KBinding :=
+  { name := n, ns := "a", cfg := { types := [], filter := none, keep := false }, group := g,
+    inc := mergeArrays own (groupSnapshots g3Raw g) }
+def g3S (own : List String) : OBinding := { kind := .schedule, name := "s", group := "g", inc := mergeArrays own (groupSnapshots g3Raw "g") }
+def g3Hook : Hook := { kbs := [g3K "x1" "" [], g3K "x2" "" [], g3K "k1" "g" ["x1"], g3K "k2" "g" ["x2"], g3K "k3" "g" []] }
+
+example : ((J.mkObj (mapV1 (updateSnapshots g3Hook [] (mkCtx (.other (g3S ["x1"]) ""))))).get? "snapshots").map J.keys
+      = some ["k1", "k2", "k3", "x1"]
+    ∧ ((J.mkObj (mapV1 (updateSnapshots g3Hook [] (mkCtx (.kubeSync (g3K "k2" "g" ["x2"])))))).get? "snapshots").map J.keys
+      = some ["k1", "k2", "k3", "x2"]
+    ∧ Spec.snapKeysClause ["x1"] (Spec.groupKbs g3Raw "g") (some ["k1", "k2", "k3", "x1"]) = true
+    ∧ Spec.snapKeysClause ["x1"] (Spec.groupKbs g3Raw "g") (some ["k1", "k2", "k3", "x2"]) = false := by decide
+
+/-- Seeded variant (C09-w5m3): `MergeArrays(groupSnapshots[g], own)` appending into the spare capacity of
+the shared group slice — the last member's extra name replaces every earlier member's. What the first
+member then shows violates the clause. -/
+theorem shared_group_slice_witness :
+    Spec.snapKeysClause ["x1"] (Spec.groupKbs g3Raw "g") (some ["k1", "k2", "k3", "x2"]) = false
+    ∧ mergeArrays ["x1"] (groupSnapshots g3Raw "g") = ["x1", "k1", "k2", "k3"] := by decide
+
 end ShellOp.BindingContext.C09
